@@ -5,89 +5,89 @@ From LibCSD Require Import Base Spec SpecProofs PFCLayout RePairDefs RePairProof
 Local Open Scope N_scope.
 
 (* the hypotheses: the dictionary (grammar + DAC sequences) represents the sorted, NUL-free, non-empty set S *)
-Theorem RPDAC_checkb_sound d S : rpdac_checkb d S = true -> rpdac_repr d S.
+Theorem C01_rpdac_checkb_sound d S : rpdac_checkb d S = true -> rpdac_repr d S.
 Proof. exact (rpdac_checkb_sound d S). Qed.
-Print Assumptions RPDAC_checkb_sound.
+Print Assumptions C01_rpdac_checkb_sound.
 
-Theorem RPDAC_inputb_sound S : rpdac_inputb S = true -> rpdac_input S.
+Theorem C01_rpdac_inputb_sound S : rpdac_inputb S = true -> rpdac_input S.
 Proof. exact (rpdac_inputb_sound S). Qed.
-Print Assumptions RPDAC_inputb_sound.
+Print Assumptions C01_rpdac_inputb_sound.
 
 (* 1. compare-while-expanding = sign of the lexicographic comparison *)
-Theorem RPDAC_compare_expand_spec d S id s q :
+Theorem C01_rpdac_compare_expand_spec d S id s q :
   rpdac_repr d S -> lenN S < 2 ^ 31 -> nthN S (id - 1) = Some s -> 1 <= id ->
   nul_free s -> s <> [] -> nul_free q -> lenN q < 2 ^ 32 ->
   exists z, compare_dac d id q = Some z /\ Z.compare z 0 = lex_compare s q.
 Proof. intros. eapply compare_expand_spec; eassumption. Qed.
-Print Assumptions RPDAC_compare_expand_spec.
+Print Assumptions C01_rpdac_compare_expand_spec.
 
 (* 2. locate / extract (result None = out-of-bounds read or fuel exhausted: unreachable) *)
-Theorem RPDAC_locate_spec d S q :
+Theorem C01_rpdac_locate_spec d S q :
   rpdac_repr d S -> rpdac_input S -> nul_free q -> lenN q < 2 ^ 32 ->
   rpdac_locate d q = Some (spec_locate S q).
 Proof. intros. apply (rpdac_locate_spec d S); assumption. Qed.
-Print Assumptions RPDAC_locate_spec.
+Print Assumptions C01_rpdac_locate_spec.
 
-Theorem RPDAC_extract_spec d S id :
+Theorem C01_rpdac_extract_spec d S id :
   rpdac_repr d S -> rpdac_input S -> rpdac_extract d id = Some (spec_extract S id).
 Proof. intros. apply rpdac_extract_spec; assumption. Qed.
-Print Assumptions RPDAC_extract_spec.
+Print Assumptions C01_rpdac_extract_spec.
 
 (* 3. prefix comparison and locatePrefix *)
-Theorem RPDAC_prefix_compare_spec d S id s p :
+Theorem C04_rpdac_prefix_compare_spec d S id s p :
   rpdac_repr d S -> lenN S < 2 ^ 31 -> nthN S (id - 1) = Some s -> 1 <= id ->
   nul_free s -> s <> [] -> p <> [] -> nul_free p -> lenN p < 2 ^ 32 ->
   exists z, prefix_compare_dac d id p = Some z /\
             Z.compare z 0 = (if is_prefix p s then Eq else lex_compare s p).
 Proof. intros. eapply prefix_compare_spec; eassumption. Qed.
-Print Assumptions RPDAC_prefix_compare_spec.
+Print Assumptions C04_rpdac_prefix_compare_spec.
 
-Theorem RPDAC_locate_prefix_spec d S p :
+Theorem C04_rpdac_locate_prefix_spec d S p :
   rpdac_repr d S -> rpdac_input S -> p <> [] -> nul_free p -> lenN p < 2 ^ 32 ->
   rpdac_locate_prefix d p = Some (range_of (spec_prefix_ids S p)).
 Proof. intros. apply (rpdac_locate_prefix_spec d S); assumption. Qed.
-Print Assumptions RPDAC_locate_prefix_spec.
+Print Assumptions C04_rpdac_locate_prefix_spec.
 
-Theorem RPDAC_extract_prefix_spec d S p :
+Theorem C04_rpdac_extract_prefix_spec d S p :
   rpdac_repr d S -> rpdac_input S -> p <> [] -> nul_free p -> lenN p < 2 ^ 32 ->
   rpdac_extract_prefix d p = Some (spec_prefix_strs S p).
 Proof. intros. apply (rpdac_extract_prefix_spec d S); assumption. Qed.
-Print Assumptions RPDAC_extract_prefix_spec.
+Print Assumptions C04_rpdac_extract_prefix_spec.
 
 (* 4. extractTable through the string iterator *)
-Theorem RPDAC_table_spec d S :
+Theorem C13_rpdac_table_spec d S :
   rpdac_repr d S -> rpdac_input S -> rpdac_extract_table d = Some (spec_table S).
 Proof. exact (rpdac_table_spec d S). Qed.
-Print Assumptions RPDAC_table_spec.
+Print Assumptions C13_rpdac_table_spec.
 
 (* corollaries in the vocabulary of C01 / C02 / C03 *)
-Theorem RPDAC_round_trip d S s :
+Theorem C01_rpdac_round_trip d S s :
   rpdac_repr d S -> rpdac_input S -> (forall s, In s S -> lenN s < 2 ^ 32) -> In s S ->
   exists id, rpdac_locate d s = Some id /\ 1 <= id <= lenN S /\ rpdac_extract d id = Some (Some s).
 Proof. intros. apply (rpdac_round_trip d S); assumption. Qed.
-Print Assumptions RPDAC_round_trip.
+Print Assumptions C01_rpdac_round_trip.
 
-Theorem RPDAC_round_trip_id d S i :
+Theorem C01_rpdac_round_trip_id d S i :
   rpdac_repr d S -> rpdac_input S -> (forall s, In s S -> lenN s < 2 ^ 32) -> 1 <= i <= lenN S ->
   exists s, rpdac_extract d i = Some (Some s) /\ In s S /\ rpdac_locate d s = Some i.
 Proof. intros. apply (rpdac_round_trip_id d S); assumption. Qed.
-Print Assumptions RPDAC_round_trip_id.
+Print Assumptions C01_rpdac_round_trip_id.
 
-Theorem RPDAC_no_false_positive d S q :
+Theorem C02_rpdac_no_false_positive d S q :
   rpdac_repr d S -> rpdac_input S -> nul_free q -> lenN q < 2 ^ 32 -> ~ In q S -> rpdac_locate d q = Some 0.
 Proof. intros. apply (rpdac_no_false_positive d S); assumption. Qed.
-Print Assumptions RPDAC_no_false_positive.
+Print Assumptions C02_rpdac_no_false_positive.
 
-Theorem RPDAC_bad_id_null d S id :
+Theorem C02_rpdac_bad_id_null d S id :
   rpdac_repr d S -> rpdac_input S -> id = 0 \/ lenN S < id -> rpdac_extract d id = Some None.
 Proof. intros. apply (rpdac_bad_id_null d S); assumption. Qed.
-Print Assumptions RPDAC_bad_id_null.
+Print Assumptions C02_rpdac_bad_id_null.
 
-Theorem RPDAC_locate_monotone d S s u :
+Theorem C03_rpdac_locate_monotone d S s u :
   rpdac_repr d S -> rpdac_input S -> (forall s, In s S -> lenN s < 2 ^ 32) -> In s S -> In u S -> lex_lt s u ->
   exists i j, rpdac_locate d s = Some i /\ rpdac_locate d u = Some j /\ i < j.
 Proof. intros. apply (rpdac_locate_monotone d S); assumption. Qed.
-Print Assumptions RPDAC_locate_monotone.
+Print Assumptions C03_rpdac_locate_monotone.
 
 (* ---- the hypotheses are satisfiable: a real dictionary ------------------------------------ *)
 Definition ex_S : list str :=
